@@ -69,37 +69,26 @@ def m2_gather_extents(ck, F):
 
 def m3_idct_extents(ck, F):
     ck.rule('M3', 'idct_channel: every access to `output` is x_base*8 + xo + (y_base*8 + yo)*stride with xo < xs = clamp(stride - x_base*8, 0, 8), '
-                  'yo < ys = clamp(len(output)/stride - y_base*8, 0, 8), x_base < blk_per_line, y_base < len(levels)/blk_per_line')
-    b = F.body('h263_rs::decoder::cpu::idct::idct_channel'); g = cfg_of(b)
-    n = 0; ok = True
-    stride = ('param', 4, ())
-    def bounded_by(e, limit_pat):
-        """e is the item of a Range(0, L) / take(L) / enumerate().take(L) iterator with L matching limit_pat"""
-        def has(x):
-            return isinstance(x, tuple) and (ematch(('agg', 'Range', ('c', 0), limit_pat), x) is not None or
-                                             (x[0] == 'call' and x[1].endswith('::take') and ematch(limit_pat, x[3]) is not None))
-        return _contains(e, has)
-    xb = ('fld', ('callp', '::next', ('callp', '::into_iter', ('agg', 'Range', ('c', 0), ('param', 3, ())))), ANY)
-    yb = ('fld', ('callp', '::next', ('callp', '::into_iter', ('agg', 'Range', ('c', 0), ('op', 'Div', LEN(('param', 1, ())), ('param', 3, ()))))), ANY)
-    xs = ('callp', '::clamp', ('op', 'Sub', stride, ('op', 'Mul', xb, ('c', 8))), ('c', 0), ('c', 8))
-    ys = ('callp', '::clamp', ('op', 'Sub', ('op', 'Div', LEN(('param', 2, ())), stride), ('op', 'Mul', yb, ('c', 8))), ('c', 0), ('c', 8))
-    pat = ('op', 'Add', ('op', 'Add', ('op', 'Mul', xb, ('c', 8)), V('xo')), ('op', 'Mul', ('op', 'Add', ('op', 'Mul', yb, ('c', 8)), V('yo')), stride))
-    for bb in sorted(g.reach):
-        t = g.blocks[bb]['term']
-        if t['t'] == 'assert' and t['kind'] == 'bounds':
-            ln = expr_of(F, b, t['ops'][0])
-            if ematch(LEN(('param', 2, ())), ln) is None: continue
-            n += 1
-            idx = expr_of(F, b, t['ops'][1])
-            m = ematch(pat, idx)
-            if m is None or not bounded_by(m['xo'], xs) or not bounded_by(m['yo'], ys):
-                ok = False
-                ck.violation('M3', 'M3 : idct_channel : output index form', where_of(b, bb),
-                             'an access to the output plane uses index %s, whose offsets are not bounded by the clamped block extents' % expr_str(idx)[:300])
-    if n < 8:
-        ck.violation('M3', 'M3 : idct_channel : sites', where_of(b), 'expected 8 accesses to output, found %d' % n); ok = False
-    if ok: ck.ok('M3', 'idct_channel: %d output accesses bounded by xs/ys' % n, where_of(b))
-    return ok
+                  'yo < ys = clamp(len(output)/stride - y_base*8, 0, 8), x_base < blk_per_line, y_base < len(levels)/blk_per_line '
+                  '(decided on normalised terms by the geometry part of C10 rule C, so spelling does not matter)')
+    from ..report import Check
+    from . import c10
+    b = F.body('h263_rs::decoder::cpu::idct::idct_channel')
+    sub = Check('C10-geometry', 'quick')
+    try:
+        c10.rule_c(sub, F)
+    except Exception as e:
+        ck.violation('M3', 'M3 : idct_channel : geometry', where_of(b), 'the block geometry of idct_channel could not be analysed (%s)' % e); return False
+    GEOM = ('sample position', 'block index', ': match', 'store outside the arms', 'no store', ': stores')
+    bad = [o for o in sub.obligations if o['status'] not in ('discharged', 'reviewed') and any(k in o['instance'] for k in GEOM)]
+    n = len([o for o in sub.obligations if o['status'] == 'discharged'])
+    if bad:
+        ck.violation('M3', 'M3 : idct_channel : output index form', where_of(b), 'an access to the output plane is not bounded by the clamped block extents: %s' % str(bad[0].get('msg') or bad[0]['instance'])[:300])
+        return False
+    if n < 4:
+        ck.violation('M3', 'M3 : idct_channel : sites', where_of(b), 'the four arms of idct_channel were not all recognised'); return False
+    ck.ok('M3', 'idct_channel: all stores at (8by + y)*stride + 8bx + x with x, y below the clamped block extents', where_of(b))
+    return True
 
 
 def m4_fast_path(ck, F):
